@@ -707,6 +707,7 @@ func props() []rp.Prop {
 		rp.P[dispCase]{Name: "dispatch", Sweep: sweepDisp, Check: checkDisp},
 		rp.P[noValueCase]{Name: "no-value-date-in-a-location", Sweep: sweepNoValue, Check: checkNoValue},
 		rp.P[sameNameCase]{Name: "same-named-process-zones", Sweep: sweepSameName, Check: checkSameName},
+		rp.P[afterPanicCase]{Name: "after-a-recovered-panic", Checks: ev.Pick(2000, 200000) / ev.Shards(), Gen: genAfterPanic, Check: checkAfterPanic},
 		rp.P[batchCase]{Name: "batches", Checks: ev.Pick(6000, 600000) / ev.Shards(), Gen: genBatch, Sweep: sweepBatch, Check: checkBatch},
 		rp.P[blankCase]{Name: "blank-fields", Checks: ev.Pick(20000, 2000000) / ev.Shards(), Gen: genBlank, Sweep: sweepBlank, Check: checkBlank},
 		rp.P[coldCase]{Name: "canonical", Sweep: func(yield func(coldCase) bool) {
